@@ -19,7 +19,7 @@ MANIFEST_ENTRY = {
 }
 
 
-def tasks(tier, seed):
+def _tasks_core(tier, seed):
     return [
         func("bt.core.StrategyBase.flatten"),
         func("bt.core.StrategyBase.close"),
@@ -75,3 +75,11 @@ def replay(o):
         d = sc.run_json(script)
     d["replay_script"] = script
     return d
+
+
+# functions under contract elsewhere whose obligations carry this property's tag as well (found by tools/tagaudit.py): run here too, so that a change
+# which breaks one of them is reported by this check and not only by a neighbour
+def tasks(tier, seed):
+    return _tasks_core(tier, seed) + [
+        func("bt.core.StrategyBase.transact"),
+    ]
